@@ -177,27 +177,31 @@ impl Pipeline {
         let mut current_chunk = chunk;
         let num_operators = self.operators.len();
 
+        let mut keep_going = true;
         for i in 0..num_operators {
             let is_last = i == num_operators - 1;
 
             if is_last {
                 // Last operator pushes to the real sink
-                return self.operators[i].push(current_chunk, &mut *self.sink);
+                let more = self.operators[i].push(current_chunk, &mut *self.sink)?;
+                return Ok(keep_going && more);
             }
 
             // Intermediate operators collect output
             let mut collector = ChunkCollector::new();
             let continue_processing = self.operators[i].push(current_chunk, &mut collector)?;
 
-            if !continue_processing || collector.is_empty() {
-                return Ok(continue_processing);
+            if collector.is_empty() {
+                return Ok(keep_going && continue_processing);
             }
+            // An operator that asks to stop has still emitted rows: hand them on, then stop.
+            keep_going = keep_going && continue_processing;
 
             // Merge collected chunks for next operator
             current_chunk = collector.into_single_chunk();
         }
 
-        Ok(true)
+        Ok(keep_going)
     }
 
     /// Finalize all operators in reverse order.
@@ -234,24 +238,29 @@ impl Pipeline {
     fn push_through_from(&mut self, chunk: DataChunk, start: usize) -> Result<bool, OperatorError> {
         let mut current_chunk = chunk;
 
+        let mut keep_going = true;
         for i in start..self.operators.len() {
             let is_last = i == self.operators.len() - 1;
 
             if is_last {
-                return self.operators[i].push(current_chunk, &mut *self.sink);
+                let more = self.operators[i].push(current_chunk, &mut *self.sink)?;
+                return Ok(keep_going && more);
             }
 
             let mut collector = ChunkCollector::new();
             let continue_processing = self.operators[i].push(current_chunk, &mut collector)?;
 
-            if !continue_processing || collector.is_empty() {
-                return Ok(continue_processing);
+            if collector.is_empty() {
+                return Ok(keep_going && continue_processing);
             }
+            // An operator that asks to stop has still emitted rows: hand them on, then stop.
+            keep_going = keep_going && continue_processing;
 
             current_chunk = collector.into_single_chunk();
         }
 
-        self.sink.consume(current_chunk)
+        let more = self.sink.consume(current_chunk)?;
+        Ok(keep_going && more)
     }
 }
 
